@@ -7,5 +7,7 @@ CONSTANTS
   MaxBatches = 3
   MaxOps = 5
   StaleFill = TRUE
+  FillOverwrite = FALSE
+  NoNegativeEntry = FALSE
   Gen = TRUE
 CHECK_DEADLOCK FALSE
